@@ -16,6 +16,7 @@ type Summary struct {
 	MonEvals   map[string]int            `json:"monitor_evals"`
 	Violations []VRec                    `json:"violations"`
 	Samples    []string                  `json:"samples"`
+	Determinism *DetSummary              `json:"determinism,omitempty"`
 }
 
 type VRec struct {
@@ -27,7 +28,7 @@ type VRec struct {
 }
 
 func main() {
-	mode := flag.String("mode", "explore", "explore | corpus | replay | pure")
+	mode := flag.String("mode", "explore", "explore | determinism | corpus | replay | pure")
 	seed := flag.Int64("seed", 1, "PRNG seed")
 	n := flag.Int("n", 10, "number of generated histories")
 	minOps := flag.Int("minops", 30, "")
@@ -93,7 +94,10 @@ func main() {
 			h.ID = *firstID + i
 			runFixed(w, h, out, record)
 		}
-	case "explore":
+	case "explore", "determinism":
+		if *mode == "determinism" {
+			sum.Determinism = &DetSummary{}
+		}
 		for i := 0; i < *n; i++ {
 			hs := *seed*1000003 + int64(i)
 			rng := rand.New(rand.NewSource(hs))
@@ -102,6 +106,7 @@ func main() {
 			g := &Gen{rng: rng, tempo: 0.15 + 0.2*rng.Float64(), txUsed: map[uint64]bool{}}
 			h.Funding = (&Gen{rng: rng}).funding()
 			r := newRunner(w, a, h, out)
+			r.wantDigest = *mode == "determinism"
 			g.r = r
 			r.header()
 			nops := *minOps + rng.Intn(*maxOps-*minOps+1)
@@ -111,6 +116,9 @@ func main() {
 			}
 			r.finish()
 			record(r)
+			if *mode == "determinism" {
+				checkDeterminism(r, sum)
+			}
 		}
 	}
 	if *sumPath != "" {
@@ -118,14 +126,23 @@ func main() {
 		must(os.WriteFile(*sumPath, b, 0644))
 	}
 	fmt.Printf("histories=%d steps=%d violations=%d\n", sum.Histories, sum.Steps, len(sum.Violations))
+	if d := sum.Determinism; d != nil {
+		fmt.Printf("determinism: histories=%d steps=%d digest_comparisons=%d differences=%d recovered_panics=%d\n",
+			d.Histories, d.Steps, d.DigestComparisons, d.Differences, d.RecoveredPanics)
+	}
 }
 
 // runFixed executes a history whose ops are already resolved.
 func runFixed(w *World, h *History, out *bufio.Writer, record func(*Runner)) {
+	runFixedWith(w, h, out, false, record)
+}
+
+func runFixedWith(w *World, h *History, out *bufio.Writer, digest bool, record func(*Runner)) {
 	ops := h.Ops
 	h.Ops = nil
 	a := standardAtoms()
 	r := newRunner(w, a, h, out)
+	r.wantDigest = digest
 	r.header()
 	for i := range ops {
 		o := ops[i]
